@@ -1,5 +1,6 @@
 import EmmetProofs.HtmlScan
-/-! # C16 — scanners are total and report only well-formed ranges (HTML scanner; all strings) -/
+import EmmetProofs.SplitValueRanges
+/-! # C16 — scanners are total and report only well-formed ranges (HTML scanner, CSS scanner, split_value; all strings) -/
 namespace EmmetProps
 open H
 
@@ -9,5 +10,17 @@ ends at or before the start of the next one). The model's `scan` is a total func
 `|s| + 1`), and the statement includes that the fuel suffices: the result is the complete event list. -/
 theorem C16_html_scan (s : Str) (special : List (Str × Option (List Str))) :
     ∃ acc', scan s special = acc'.reverse ∧ GoodRev s acc' s.length := H.scan_good s special
+
+/-- CSS scanner: for EVERY source (arbitrary, unbalanced, unterminated), every token the scanner reports satisfies
+`0 ≤ start ≤ end ≤ |source|`, and its delimiter is `-1` or an index into the source. `C.scan` is total (structural recursion on
+fuel `|s| + 1`). -/
+theorem C16_css_scan (s : C.Str) : ∀ e ∈ C.scan s, C.EvOK s.length e := C.scan_ranges s
+
+/-- `split_value`: for EVERY value, each reported token range is non-empty and inside the value: `0 ≤ start < end ≤ |value|`. -/
+theorem C16_split_value (s : C.Str) : ∀ r ∈ C.splitValue s, C.RngOK s.length r := C.splitValue_ranges s
+
+-- non-vacuity: a source with a selector, two properties, a comment, an unterminated string and an unbalanced brace
+example : (C.scan (("a{b:c;/*x*/d:'e}".toList).map Char.toNat)).length = 5 := by decide +kernel
+example : (C.splitValue (("1px -a (b c) 'd".toList).map Char.toNat)) = [(0, 3), (4, 6), (7, 12), (13, 15)] := by decide +kernel
 
 end EmmetProps
